@@ -71,41 +71,69 @@ theorem steps_formula (p : Bool) (pos : Nat × Nat) (row col : Nat) (out : List 
       simp [steps, step, getAttr]
     · simp [steps, step, getAttr, hf]
 
+/-- character data (in any number of pieces) inside a skipped element is ignored -/
+theorem steps_pieces_skip (pos : Nat × Nat) (v : Option Bytes) (name : Bytes) (d : Nat) (row col : Nat)
+    (out : List (Nat × Nat × Bytes)) (tb : SharedFormula.Table) (chunks : List Bytes) :
+    steps ⟨.skip pos v name d, row, col, out, tb⟩ (pieces chunks) = .ok ⟨.skip pos v name d, row, col, out, tb⟩ := by
+  induction chunks with
+  | nil => simp [pieces, steps]
+  | cons c cs ih =>
+    rw [pieces_cons]
+    have h1 : steps ⟨.skip pos v name d, row, col, out, tb⟩ [.text c, .other] =
+        .ok ⟨.skip pos v name d, row, col, out, tb⟩ := by simp [steps, step]
+    rw [steps_append_ok _ _ _ _ h1, ih]
+
 /-- `<v>…</v>` is skipped -/
 theorem steps_v (p : Bool) (pos : Nat × Nat) (v : Option Bytes) (row col : Nat) (out : List (Nat × Nat × Bytes))
-    (tb : SharedFormula.Table) (t : Bytes) : steps ⟨.cell pos v, row, col, out, tb⟩ (vEvents p t) = .ok ⟨.cell pos v, row, col, out, tb⟩ := by
+    (tb : SharedFormula.Table) (chunks : List Bytes) :
+    steps ⟨.cell pos v, row, col, out, tb⟩ (vEvents p chunks) = .ok ⟨.cell pos v, row, col, out, tb⟩ := by
   unfold vEvents
-  by_cases ht : t = []
-  · subst ht
-    simp [steps, step, getAttr]
-  · simp [steps, step, getAttr, ht]
+  have h1 : steps ⟨.cell pos v, row, col, out, tb⟩ [.start (q p nV) []] =
+      .ok ⟨.skip pos v (q p nV) 0, row, col, out, tb⟩ := by simp [steps, step, getAttr]
+  have h2 := steps_pieces_skip pos v (q p nV) 0 row col out tb chunks
+  have h3 : steps ⟨.skip pos v (q p nV) 0, row, col, out, tb⟩ [.stop (q p nV)] =
+      .ok ⟨.cell pos v, row, col, out, tb⟩ := by simp [steps, step]
+  rw [List.append_assoc, steps_append_ok _ _ _ _ h1, steps_append_ok _ _ _ _ h2, h3]
 
 /-- the value children of a cell leave the formula text alone -/
-theorem steps_content (p : Bool) (pos : Nat × Nat) (v : Option Bytes) (c : Content) (row col : Nat)
+theorem steps_content (p : Bool) (sp : Bytes → List Bytes) (pos : Nat × Nat) (v : Option Bytes) (c : Content) (row col : Nat)
     (out : List (Nat × Nat × Bytes)) (tb : SharedFormula.Table) :
-    steps ⟨.cell pos v, row, col, out, tb⟩ (contentEvents p c).2 = .ok ⟨.cell pos v, row, col, out, tb⟩ := by
+    steps ⟨.cell pos v, row, col, out, tb⟩ (contentEvents p sp c).2 = .ok ⟨.cell pos v, row, col, out, tb⟩ := by
   cases c with
   | blank => simp [contentEvents, steps]
-  | num t tn => exact steps_v p pos v row col out tb t
+  | num t tn => exact steps_v p pos v row col out tb _
   | shared idx => exact steps_v p pos v row col out tb _
   | inline s =>
     simp only [contentEvents]
     have hne : (q p nT = q p nIs) = False := by
       rw [q_inj]; exact eq_false (by decide)
-    by_cases hs : s = []
-    · subst hs
-      simp [steps, step, getAttr, hne]
-    · simp [steps, step, getAttr, hs, hne]
-  | fstr s => exact steps_v p pos v row col out tb s
+    have h1 : steps ⟨.cell pos v, row, col, out, tb⟩ [.start (q p nIs) [], .start (q p nT) []] =
+        .ok ⟨.skip pos v (q p nIs) 0, row, col, out, tb⟩ := by simp [steps, step, getAttr, hne]
+    have h2 := steps_pieces_skip pos v (q p nIs) 0 row col out tb (sp s)
+    have h3 : steps ⟨.skip pos v (q p nIs) 0, row, col, out, tb⟩ [.stop (q p nT), .stop (q p nIs)] =
+        .ok ⟨.cell pos v, row, col, out, tb⟩ := by simp [steps, step, hne]
+    rw [List.append_assoc, steps_append_ok _ _ _ _ h1, steps_append_ok _ _ _ _ h2, h3]
+  | fstr s => exact steps_v p pos v row col out tb _
   | bool b => exact steps_v p pos v row col out tb _
   | err k => exact steps_v p pos v row col out tb _
-  | iso s => exact steps_v p pos v row col out tb s
+  | iso s => exact steps_v p pos v row col out tb _
 
 /-! ### cells, rows, the sheet -/
 
+/-- white space and comments between rows and cells are skipped -/
+theorem steps_inert_rows (l : List Ev) (h : Inert l) (row col : Nat) (out : List (Nat × Nat × Bytes))
+    (tb : SharedFormula.Table) : steps ⟨.rows, row, col, out, tb⟩ l = .ok ⟨.rows, row, col, out, tb⟩ := by
+  induction l with
+  | nil => rfl
+  | cons ev rest ih =>
+    have hrest : Inert rest := fun e he => h e (by simp [he])
+    rcases h ev (by simp) with rfl | ⟨s, rfl⟩
+    · simp only [steps, step]; exact ih hrest
+    · simp only [steps, step]; exact ih hrest
+
 /-- one rendered `<c>`: `next_formula` returns the cell at its position with the text of its `<f>` (or `""`)
     and moves the column cursor just past it -/
-theorem steps_cell (lay : Layout) (r c cur : Nat) (cs : CellSpec) (hr : r < 1048576) (hc : c < 16384)
+theorem steps_cell (lay : Layout) (hl : lay.Legal) (r c cur : Nat) (cs : CellSpec) (hr : r < 1048576) (hc : c < 16384)
     (out : List (Nat × Nat × Bytes)) (tb : SharedFormula.Table) :
     steps ⟨.rows, r, cur, out, tb⟩ (renderCell lay r c cur cs) =
       .ok ⟨.rows, r, c + 1, (r, c, cs.formula.getD []) :: out, tb⟩ := by
@@ -115,10 +143,14 @@ theorem steps_cell (lay : Layout) (r c cur : Nat) (cs : CellSpec) (hr : r < 1048
     subst hra; split
     · exact Or.inr ⟨_, rfl⟩
     · exact Or.inl rfl
-  have h1 : steps ⟨.rows, r, cur, out, tb⟩ [.start (q lay.pfx nC) (ra ++ styleAttr cs.style ++ (contentEvents lay.pfx cs.content).1)] =
-      .ok ⟨.cell (r, c) none, r, c, out, tb⟩ := by
-    have hattr := getAttr_cell_r ra hra' cs.style _ (contentEvents_attr lay.pfx cs.content)
-    simp only [steps, step, ln_c, nC_ne_nRow, if_false, if_true, hattr]
+  generalize hp : lay.cellPfx r c = p
+  have hta := contentEvents_attr p (lay.split r c) cs.content
+  generalize hattrs : lay.cellArrange r c (ra ++ styleAttr cs.style ++ (contentEvents p (lay.split r c) cs.content).1) = attrs
+  have hR : getAttr attrs nR = ra.head?.map (·.2) := by
+    rw [← hattrs, hl.cellAttr r c _ nR (cell_base_distinct ra hra' cs.style _ hta) (Or.inl rfl)]; exact getAttr_cell_r ra hra' cs.style _ hta
+  have h0 := steps_inert_rows (lay.gapCell r c) (hl.gaps.2.1 r c) r cur out tb
+  have h1 : steps ⟨.rows, r, cur, out, tb⟩ [.start (q p nC) attrs] = .ok ⟨.cell (r, c) none, r, c, out, tb⟩ := by
+    simp only [steps, step, ln_c, nC_ne_nRow, if_false, if_true, hR]
     subst hra
     by_cases hex : (lay.cellExplicit r c || c != cur) = true
     · simp only [hex, if_true, List.head?_cons, Option.map_some]
@@ -128,14 +160,14 @@ theorem steps_cell (lay : Layout) (r c cur : Nat) (cs : CellSpec) (hr : r < 1048
         exact hex.2
       subst hcur
       simp only [hex, Bool.false_eq_true, if_false, List.head?_nil, Option.map_none]
-  have h2 := steps_formula lay.pfx (r, c) r c out tb cs.formula
-  have h3 := steps_content lay.pfx (r, c) cs.formula cs.content r c out tb
-  have h4 : steps ⟨.cell (r, c) cs.formula, r, c, out, tb⟩ [.stop (q lay.pfx nC)] =
+  have h2 := steps_formula p (r, c) r c out tb cs.formula
+  have h3 := steps_content p (lay.split r c) (r, c) cs.formula cs.content r c out tb
+  have h4 : steps ⟨.cell (r, c) cs.formula, r, c, out, tb⟩ [.stop (q p nC)] =
       .ok ⟨.rows, r, c + 1, (r, c, cs.formula.getD []) :: out, tb⟩ := by
     have : satAdd c 1 = c + 1 := satAdd_eq (by simp only [U32]; omega)
     simp [steps, step, this]
-  rw [List.append_assoc, List.append_assoc, steps_append_ok _ _ _ _ h1, steps_append_ok _ _ _ _ h2,
-    steps_append_ok _ _ _ _ h3, h4]
+  rw [List.append_assoc, List.append_assoc, List.append_assoc, steps_append_ok _ _ _ _ h0,
+    steps_append_ok _ _ _ _ h1, steps_append_ok _ _ _ _ h2, steps_append_ok _ _ _ _ h3, h4]
 
 /-- the formula cells of one row -/
 def rowFormulas (r : Nat) (cells : List (Nat × CellSpec)) : List (Nat × Nat × Bytes) :=
@@ -145,7 +177,7 @@ def rowFormulas (r : Nat) (cells : List (Nat × CellSpec)) : List (Nat × Nat ×
 def formulasOf (s : Sheet) : List (Nat × Nat × Bytes) :=
   s.flatMap fun row => rowFormulas row.1 row.2
 
-theorem steps_cells (lay : Layout) (r : Nat) (hr : r < 1048576) (cells : List (Nat × CellSpec))
+theorem steps_cells (lay : Layout) (hl : lay.Legal) (r : Nat) (hr : r < 1048576) (cells : List (Nat × CellSpec))
     (cur : Nat) (hinc : Increasing 16384 cur cells) (out : List (Nat × Nat × Bytes)) (tb : SharedFormula.Table) :
     ∃ col, steps ⟨.rows, r, cur, out, tb⟩ (renderCells lay r cur cells) =
       .ok ⟨.rows, r, col, (rowFormulas r cells).reverse ++ out, tb⟩ := by
@@ -154,14 +186,14 @@ theorem steps_cells (lay : Layout) (r : Nat) (hr : r < 1048576) (cells : List (N
   | cons cell rest ih =>
     obtain ⟨c, cs⟩ := cell
     obtain ⟨_, hc, hrest⟩ := hinc
-    have h1 := steps_cell lay r c cur cs hr hc out tb
+    have h1 := steps_cell lay hl r c cur cs hr hc out tb
     obtain ⟨col, h2⟩ := ih (c + 1) hrest ((r, c, cs.formula.getD []) :: out)
     refine ⟨col, ?_⟩
     simp only [renderCells]
     rw [steps_append_ok _ _ _ _ h1, h2]
     simp [rowFormulas]
 
-theorem steps_rows (lay : Layout) (s : Sheet) (cur : Nat) (hinc : Increasing 1048576 cur s)
+theorem steps_rows (lay : Layout) (hl : lay.Legal) (s : Sheet) (cur : Nat) (hinc : Increasing 1048576 cur s)
     (hcols : ∀ row ∈ s, Increasing 16384 0 row.2) (out : List (Nat × Nat × Bytes)) (tb : SharedFormula.Table) :
     ∃ row, steps ⟨.rows, cur, 0, out, tb⟩ (renderRows lay cur s) =
       .ok ⟨.rows, row, 0, (formulasOf s).reverse ++ out, tb⟩ := by
@@ -170,45 +202,55 @@ theorem steps_rows (lay : Layout) (s : Sheet) (cur : Nat) (hinc : Increasing 104
   | cons rowspec rest ih =>
     obtain ⟨r, cells⟩ := rowspec
     obtain ⟨_, hr, hrest⟩ := hinc
+    have h0 := steps_inert_rows (lay.gapRow r) (hl.gaps.1 r) cur 0 out tb
     have h1 : steps ⟨.rows, cur, 0, out, tb⟩
-        [.start (q lay.pfx nRow) (if (lay.rowExplicit r || r != cur) = true then [(nR, dec (r + 1))] else [])] =
+        [.start (q (lay.rowPfx r) nRow) (lay.rowArrange r (if (lay.rowExplicit r || r != cur) = true then [(nR, dec (r + 1))] else []))] =
         .ok ⟨.rows, r, 0, out, tb⟩ := by
+      have hrow : getAttr (lay.rowArrange r (if (lay.rowExplicit r || r != cur) = true then [(nR, dec (r + 1))] else [])) nR =
+          getAttr (if (lay.rowExplicit r || r != cur) = true then [(nR, dec (r + 1))] else []) nR :=
+        hl.rowAttr r _ (by split <;> simp)
+      simp only [steps, step, ln_row, if_true, hrow]
       by_cases hex : (lay.rowExplicit r || r != cur) = true
-      · simp only [hex, if_true, steps, step, ln_row, getAttr, List.find?, beq_self_eq_true, Option.map_some]
+      · simp only [hex, if_true, getAttr, List.find?, beq_self_eq_true, Option.map_some]
         rw [getRow_dec r (by simp only [U32]; omega)]
       · have hcur : r = cur := by
           simp only [Bool.or_eq_true, bne_iff_ne, ne_eq, not_or, Bool.not_eq_true, Classical.not_not] at hex
           exact hex.2
         subst hcur
         have hre : lay.rowExplicit r = false := by simpa using hex
-        simp [hre, steps, step, getAttr]
-    obtain ⟨col, h2⟩ := steps_cells lay r hr cells 0 (hcols (r, cells) (by simp)) out tb
-    have h3 : steps ⟨.rows, r, col, (rowFormulas r cells).reverse ++ out, tb⟩ [.stop (q lay.pfx nRow)] =
+        simp [hre, getAttr]
+    obtain ⟨col, h2⟩ := steps_cells lay hl r hr cells 0 (hcols (r, cells) (by simp)) out tb
+    have h2' := steps_inert_rows (lay.gapRowEnd r) (hl.gaps.2.2.1 r) r col ((rowFormulas r cells).reverse ++ out) tb
+    have h3 : steps ⟨.rows, r, col, (rowFormulas r cells).reverse ++ out, tb⟩ [.stop (q (lay.rowPfx r) nRow)] =
         .ok ⟨.rows, r + 1, 0, (rowFormulas r cells).reverse ++ out, tb⟩ := by
       have : satAdd r 1 = r + 1 := satAdd_eq (by simp only [U32]; omega)
       simp [steps, step, this]
     obtain ⟨row, h4⟩ := ih (r + 1) hrest (fun x hx => hcols x (by simp [hx])) ((rowFormulas r cells).reverse ++ out)
     refine ⟨row, ?_⟩
     simp only [renderRows]
-    rw [List.append_assoc, List.append_assoc, steps_append_ok _ _ _ _ h1, steps_append_ok _ _ _ _ h2,
+    rw [List.append_assoc, List.append_assoc, List.append_assoc, List.append_assoc, steps_append_ok _ _ _ _ h0,
+      steps_append_ok _ _ _ _ h1, steps_append_ok _ _ _ _ h2, steps_append_ok _ _ _ _ h2',
       steps_append_ok _ _ _ _ h3, h4]
     simp [formulasOf]
 
 /-- `next_formula` on a rendered sheet: exactly the cells of the sheet, row-major, each with its formula text -/
-theorem readFormulas_render (s : Sheet) (lay : Layout) (hwf : s.WF) (hdim : lay.DimOk) :
+theorem readFormulas_render (s : Sheet) (lay : Layout) (hl : lay.Legal) (hwf : s.WF) :
     readFormulas (renderSheet s lay) = .ok (formulasOf s) := by
   unfold readFormulas
-  rw [readerNew_render s lay hdim]
-  obtain ⟨row, h1⟩ := steps_rows lay s 0 hwf.1 hwf.2 [] []
+  rw [readerNew_render s lay hl]
   let tb : SharedFormula.Table := []
-  have h2 : steps ⟨.rows, row, 0, (formulasOf s).reverse ++ [], tb⟩
-      [.stop (q lay.pfx nSheetData), .stop (q lay.pfx nWorksheet)] =
+  obtain ⟨row, h1⟩ := steps_rows lay hl s 0 hwf.1 hwf.2 [] tb
+  have h2 := steps_inert_rows lay.gapEnd hl.gaps.2.2.2 row 0 ((formulasOf s).reverse ++ []) tb
+  have h3 : steps ⟨.rows, row, 0, (formulasOf s).reverse ++ [], tb⟩ [.stop (q lay.pfx nSheetData)] =
       .ok ⟨.done, row, 0, (formulasOf s).reverse ++ [], tb⟩ := by
     simp [steps, step]
-  have h3 := steps_append_ok _ _ _ [Ev.stop (q lay.pfx nSheetData), .stop (q lay.pfx nWorksheet)] h1
-  rw [h2] at h3
-  have := run_of_steps _ initSt _ h3 rfl
-  simp only [initSt] at this ⊢
+  have h4 := steps_done ⟨.done, row, 0, (formulasOf s).reverse ++ [], tb⟩ (lay.after ++ [.stop (q lay.pfx nWorksheet)]) rfl
+  have hall : steps initSt (renderBody s lay) = .ok ⟨.done, row, 0, (formulasOf s).reverse ++ [], tb⟩ := by
+    unfold renderBody
+    simp only [initSt, List.append_assoc]
+    rw [steps_append_ok _ _ _ _ h1, steps_append_ok _ _ _ _ h2, steps_append_ok _ _ _ _ h3, h4]
+  have := run_of_steps _ initSt _ hall rfl
+  simp only
   rw [this]
   simp
 
